@@ -55,7 +55,32 @@ std::string probe_ring(const D& F) {
     F.write(os, F.one) << ' ';
     F.write(os, F.mOne) << ' ';
     F.write(os, F.zero) << ' ';
-    os << Integer(F.characteristic()) << ' ' << Integer(F.cardinality());
+    os << Integer(F.characteristic()) << ' ' << Integer(F.cardinality()) << ' ';
+    // other source types of init, and convert (C04's operations; here they widen the instantiated const interface)
+    F.init(r, int64_t(-7));   F.write(os, r) << ' ';
+    F.init(r, uint64_t(9));   F.write(os, r) << ' ';
+    F.init(r, 12345.0);       F.write(os, r) << ' ';
+    Integer back; F.convert(back, a); os << back;
+    return os.str();
+}
+
+// exchange probe: elements created through G (an object that must denote the same domain as F: its copy, the source it was
+// assigned from, or an object built from the same parameters by copy) are used through F.  C16: copies and assignment targets are
+// interchangeable with the original, so the result must be what F alone gives.
+template <class D>
+std::string xprobe_ring(const D& F, const D& G) {
+    std::ostringstream os;
+    typename D::Element a, b, c, r;
+    G.init(a, Integer(7));
+    G.init(b, Integer(5));
+    G.init(c, Integer(1000003));
+    F.init(r);
+    F.mul(r, a, c);      F.write(os, r) << ' ';
+    F.axpy(r, a, b, c);  F.write(os, r) << ' ';
+    F.inv(r, b);         F.write(os, r) << ' ';
+    F.write(os, a) << ' ';
+    F.write(os, G.mOne) << ' ';
+    os << (F.areEqual(a, G.one) ? 1 : 0) << (F.isOne(G.one) ? 1 : 0) << (F.isZero(G.zero) ? 1 : 0);
     return os.str();
 }
 
@@ -68,7 +93,51 @@ std::string probe_gfq(const D& F) {
     // degree < k only: above it the result depends on the modulus polynomial the constructor draws with the documented global
     // random state (Integer::randstate), which is not a construction parameter of GFqDom(p,k)
     std::vector<typename D::Element> lo = {1, 1};
-    F.init(r, lo); F.write(os, r);
+    F.init(r, lo); F.write(os, r) << ' ';
+    // degree >= k: reduced modulo the field's own modulus polynomial (an explicit construction parameter in this zoo)
+    std::vector<typename D::Element> hi = {1, 0, 1, 1, 0, 1, 1, 1, 0, 1, 1};
+    F.init(r, hi); F.write(os, r) << ' ';
+    std::vector<typename D::Element> eq(size_t(F.exponent()) + 1, 0); eq.back() = 1; eq[0] = 1;   // X^k + 1
+    F.init(r, eq); F.write(os, r);
+    return os.str();
+}
+
+// QField<Rational>: the field operations, and a product computed before and after a Rational is built from a subnormal double
+// (the constructor's scaling branch): the process-wide reduction mode (Rational::SetReduce / SetNoReduce, documented) must not be
+// changed by any field operation.  The harnesses run this kind once in each mode.
+template <class D>
+std::string probe_qfield(const D& F) {
+    std::ostringstream os;
+    typename D::Element a, b, c, r, x;
+    F.init(a, Integer(2), Integer(3));
+    F.init(b, Integer(3), Integer(4));
+    F.init(c, Integer(-5), Integer(6));
+    F.mul(r, a, b);      F.write(os, r) << ' ';
+    F.add(r, a, c);      F.write(os, r) << ' ';
+    F.sub(r, a, b);      F.write(os, r) << ' ';
+    F.div(r, a, b);      F.write(os, r) << ' ';
+    F.neg(r, b);         F.write(os, r) << ' ';
+    F.inv(r, c);         F.write(os, r) << ' ';
+    F.axpy(r, a, b, c);  F.write(os, r) << ' ';
+    F.maxpy(r, a, b, c); F.write(os, r) << ' ';
+    F.axmy(r, a, b, c);  F.write(os, r) << ' ';
+    F.init(x, 4.9406564584124654e-324);   // smallest subnormal double
+    os << (F.isZero(x) ? 1 : 0) << ' ';
+    F.init(x, 0.375);    F.write(os, x) << ' ';
+    F.init(x, Integer(7)); F.write(os, x) << ' ';
+    F.mul(r, a, b);      F.write(os, r) << ' ';          // same operands as the first line: same result
+    os << (F.areEqual(a, b) ? 1 : 0) << (F.isZero(a) ? 1 : 0) << (F.isOne(F.one) ? 1 : 0) << ' ';
+    F.write(os, F.one) << ' '; F.write(os, F.mOne) << ' '; F.write(os, F.zero);
+    return os.str();
+}
+template <class D>
+std::string xprobe_qfield(const D& F, const D& G) {
+    std::ostringstream os;
+    typename D::Element a, b, r;
+    G.init(a, Integer(2), Integer(3));
+    G.init(b, Integer(3), Integer(4));
+    F.mul(r, a, b); F.write(os, r) << ' ';
+    F.write(os, G.mOne);
     return os.str();
 }
 
@@ -89,15 +158,30 @@ std::string probe_poly(const PD& P) {
     return os.str();
 }
 
+template <class PD>
+std::string xprobe_poly(const PD& P, const PD& Q) {
+    std::ostringstream os;
+    typename PD::Element A, B, R;
+    const typename PD::Domain_t& G = Q.getdomain();
+    typename PD::Type_t e;
+    Q.init(A, Degree(3)); Q.init(B, Degree(2));
+    for (int i = 0; i <= 3; ++i) { G.init(e, Integer(3 + 5 * i)); A[size_t(i)] = e; }
+    for (int i = 0; i <= 2; ++i) { G.init(e, Integer(2 + 7 * i)); B[size_t(i)] = e; }
+    P.mul(R, A, B);  P.write(os, R) << " | ";
+    P.gcd(R, A, B);  P.write(os, R);
+    return os.str();
+}
+
 struct Box {
     virtual ~Box() {}
     virtual Box* copy() const = 0;              // copy-construct a new domain object from this one
     virtual void assign(const Box& o) = 0;      // operator=
     virtual void selfassign() = 0;              // x = x
     virtual std::string probe() const = 0;
+    virtual std::string xprobe(const Box& src) const = 0;   // elements created through `src` (same domain), used through this
 };
 
-template <class D, std::string (*PROBE)(const D&)>
+template <class D, std::string (*PROBE)(const D&), std::string (*XPROBE)(const D&, const D&)>
 struct BoxT : Box {
     D d;
     template <class... A> explicit BoxT(A&&... a) : d(std::forward<A>(a)...) {}
@@ -106,10 +190,24 @@ struct BoxT : Box {
     void assign(const Box& o) override { d = static_cast<const BoxT&>(o).d; }
     void selfassign() override { D& alias = d; d = alias; }
     std::string probe() const override { return PROBE(d); }
+    std::string xprobe(const Box& src) const override { return XPROBE(d, static_cast<const BoxT&>(src).d); }
 };
 
-template <class D> using RingBox = BoxT<D, probe_ring<D>>;
-template <class D> using GFqBox = BoxT<D, probe_gfq<D>>;
+template <class D> using RingBox = BoxT<D, probe_ring<D>, xprobe_ring<D>>;
+template <class D> using GFqBox = BoxT<D, probe_gfq<D>, xprobe_ring<D>>;
+// QField<Rational> has const data members and therefore no assignment operator: "assignment" is replacement by a copy-constructed
+// object, which is all user code can do
+template <class D>
+struct QBox : Box {
+    std::unique_ptr<D> d;
+    QBox() : d(new D()) {}
+    QBox(const QBox& o) : d(new D(*o.d)) {}
+    Box* copy() const override { return new QBox(*this); }
+    void assign(const Box& o) override { d.reset(new D(*static_cast<const QBox&>(o).d)); }
+    void selfassign() override { std::unique_ptr<D> c(new D(*d)); d.swap(c); }
+    std::string probe() const override { return probe_qfield<D>(*d); }
+    std::string xprobe(const Box& src) const override { return xprobe_qfield<D>(*d, *static_cast<const QBox&>(src).d); }
+};
 
 // polynomial domain over Modular<int32_t>: the box owns the coefficient field too
 struct PolyBox : Box {
@@ -122,9 +220,15 @@ struct PolyBox : Box {
     void assign(const Box& o) override { d = static_cast<const PolyBox&>(o).d; }
     void selfassign() override { P_t& alias = d; d = alias; }
     std::string probe() const override { return probe_poly<P_t>(d); }
+    std::string xprobe(const Box& src) const override { return xprobe_poly<P_t>(d, static_cast<const PolyBox&>(src).d); }
 };
 
 typedef std::function<Box*(int)> Maker;   // argument: parameter set 0 or 1
+
+// process-wide mode a kind is run in (documented global state of the library, not a property of the object)
+inline void enter_kind(const std::string& kind) {
+    if (kind.size() > 9 && kind.compare(kind.size() - 9, 9, "_noreduce") == 0) Rational::SetNoReduce(); else Rational::SetReduce();
+}
 
 inline const std::map<std::string, Maker>& kinds() {
     static const std::map<std::string, Maker> K = {
@@ -137,6 +241,9 @@ inline const std::map<std::string, Maker>& kinds() {
         {"Modular_float", [](int i) -> Box* { return new RingBox<Modular<float>>(i ? 4093.f : 101.f); }},
         {"Modular_Integer", [](int i) -> Box* { return new RingBox<Modular<Integer>>(i ? Integer("1267650600228229401496703205653") : Integer(101)); }},
         {"Modular_Log16", [](int i) -> Box* { return new RingBox<Modular<Log16>>(i ? 1009 : 101); }},
+        // primes for which 2 is not a primitive root: the constructor draws the generator of its tables with rand(), so two rings
+        // built independently for the same prime may use different tables (only visible when elements cross objects)
+        {"Modular_Log16_b", [](int i) -> Box* { return new RingBox<Modular<Log16>>(i ? 23 : 17); }},
         {"Modular_ruint7", [](int i) -> Box* { return new RingBox<Modular<RecInt::ruint<7>>>(RecInt::ruint<7>(i ? 4294967291u : 101u)); }},
         {"ModularBalanced_int32", [](int i) -> Box* { return new RingBox<ModularBalanced<int32_t>>(i ? 65521 : 101); }},
         {"ModularBalanced_int64", [](int i) -> Box* { return new RingBox<ModularBalanced<int64_t>>(i ? int64_t(2147483647) : int64_t(101)); }},
@@ -159,6 +266,9 @@ inline const std::map<std::string, Maker>& kinds() {
             for (int j = 0; j < n; ++j) { base.init(e, Integer(c[j])); irr[size_t(j)] = e; }
             return new RingBox<E>(pd, irr); }},
         {"Poly1Dom_Modular_int32", [](int i) -> Box* { return new PolyBox(i ? 65521 : 101); }},
+        // no construction parameter; "_noreduce": the harnesses put the process in Rational::SetNoReduce() mode for this kind
+        {"QField_Rational", [](int) -> Box* { return new QBox<QField<Rational>>(); }},
+        {"QField_Rational_noreduce", [](int) -> Box* { return new QBox<QField<Rational>>(); }},
     };
     return K;
 }
